@@ -5658,9 +5658,12 @@ class PyCdlib:
         if signature != b'\xfb\xc0\x78\x70':
             raise pycdlibexception.PyCdlibInvalidInput('Invalid signature on boot file for iso hybrid')
 
-        self.isohybrid_mbr = isohybrid.IsoHybrid()
-        self.isohybrid_mbr.new(efi, mac, part_entry, mbr_id, part_offset,
-                               geometry_sectors, geometry_heads, part_type)
+        # Only attach the hybrid data once it has been created successfully, so
+        # that a refused call leaves the ISO as it was.
+        tmp_isohybrid = isohybrid.IsoHybrid()
+        tmp_isohybrid.new(efi, mac, part_entry, mbr_id, part_offset,
+                          geometry_sectors, geometry_heads, part_type)
+        self.isohybrid_mbr = tmp_isohybrid
 
     def rm_isohybrid(self):
         # type: () -> None
